@@ -337,6 +337,9 @@ def Display.record (d : Display) (o : Ob) : Display :=
 def Display.recordCanary (d : Display) (passed : Bool) : Display :=
   ⟨d.windowSize, d.minObs, d.obs, d.canaries ++ [passed]⟩
 
+/-- `clear()`: all observations and canary results are dropped -/
+def Display.clear (d : Display) : Display := ⟨d.windowSize, d.minObs, [], []⟩
+
 /-- a set of small ids as a bit mask -/
 def bitsOf (l : List Nat) : Nat := l.foldl (fun acc i => acc ||| (1 <<< i)) 0
 
@@ -602,6 +605,12 @@ def Sys.importSigs (s : Sys) (data : List Sig) : Sys :=
   ⟨s.minTrain, s.tol, s.varThr, s.treg, ⟨s.mem.cap, importGo s.mem.cap (s.clock + 1) s.mem.sigs data⟩,
     s.clock + 1, s.agents⟩
 
+/-- `memory.recall(query)` (exact match) called from outside the pipeline: like `recall_by_hashes`, the first hit is
+    touched — the order in which signatures are pruned at capacity changes, nothing else -/
+def Sys.recall (s : Sys) (a v st : Nat) : Sys × Option Sig :=
+  (⟨s.minTrain, s.tol, s.varThr, s.treg, ⟨s.mem.cap, (recallGo a v st (s.clock + 1) s.mem.sigs).1⟩, s.clock + 1,
+    s.agents⟩, (recallGo a v st (s.clock + 1) s.mem.sigs).2)
+
 /-- `memory.signatures = [the entries whose position carries `true`]` (positions beyond the mask are dropped):
     clearing the list, `pop(0)`, `del signatures[-1]`, re-assigning a slice -/
 def keepMask : List Bool → List Sig → List Sig
@@ -657,6 +666,8 @@ inductive Op where
   | peek
   /-- `memory.signatures` re-assigned / mutated directly: keep the entries at the positions marked `true` -/
   | forget (mask : List Bool)
+  /-- `memory.recall(query)` from outside: touches the first signature of agent `a` with hashes `v`, `st` -/
+  | recall (a v st : Nat)
 
 /-- what an operation shows to the outside -/
 inductive Obs where
@@ -685,6 +696,7 @@ def Sys.step (s : Sys) : Op → Sys × Obs
   | .setCap c => (s.setCap c, .done)
   | .peek => (s, .done)
   | .forget mask => (s.forget mask, .done)
+  | .recall a v st => ((s.recall a v st).1, .done)
 
 /-- run a history; the observations come out in order -/
 def Sys.run (s : Sys) : List Op → Sys × List Obs
